@@ -239,6 +239,26 @@ func (b *circuitBreakerBase) updateNextRetryTimestamp() {
 	}
 }
 
+// probeCompletedUncounted applies the outcome of a request that completed while the breaker was half-open
+// and that could not be counted: there is no bucket for the current time when the clock has been set back
+// behind the buckets in use. The outcome of a probe decides a half-open breaker without the statistic;
+// dropping it left the breaker half-open for good when no further probe is admitted.
+func (b *circuitBreakerBase) probeCompletedUncounted(failed bool, failedSnapshot interface{}, resetMetric func()) {
+	if b.CurrentState() != HalfOpen {
+		return
+	}
+	if failed {
+		b.fromHalfOpenToOpen(failedSnapshot)
+		return
+	}
+	b.addCurProbeNum()
+	if b.probeNumber == 0 || atomic.LoadUint64(&b.curProbeNumber) >= b.probeNumber {
+		if b.fromHalfOpenToClosed() {
+			resetMetric()
+		}
+	}
+}
+
 func (b *circuitBreakerBase) addCurProbeNum() {
 	atomic.AddUint64(&b.curProbeNumber, 1)
 }
@@ -401,6 +421,7 @@ func (b *slowRtCircuitBreaker) OnRequestComplete(rt uint64, _ error) {
 	if curErr != nil {
 		logging.Error(curErr, "Fail to get current counter in slowRtCircuitBreaker#OnRequestComplete().",
 			"rule", b.rule)
+		b.probeCompletedUncounted(rt > b.maxAllowedRt, 1.0, b.resetMetric)
 		return
 	}
 	if rt > b.maxAllowedRt {
@@ -595,6 +616,7 @@ func (b *errorRatioCircuitBreaker) OnRequestComplete(_ uint64, err error) {
 	if curErr != nil {
 		logging.Error(curErr, "Fail to get current counter in errorRatioCircuitBreaker#OnRequestComplete().",
 			"rule", b.rule)
+		b.probeCompletedUncounted(err != nil, 1.0, b.resetMetric)
 		return
 	}
 	if err != nil {
@@ -784,6 +806,7 @@ func (b *errorCountCircuitBreaker) OnRequestComplete(_ uint64, err error) {
 	if curErr != nil {
 		logging.Error(curErr, "Fail to get current counter in errorCountCircuitBreaker#OnRequestComplete().",
 			"rule", b.rule)
+		b.probeCompletedUncounted(err != nil, 1, b.resetMetric)
 		return
 	}
 	if err != nil {
